@@ -106,10 +106,12 @@ def from_plan(shape, feats, i, for_codec=True):
     style = dict(doc_attr="doc_attr_form" in F, combined="combined_attrs" in F, macro_ty="macro_ty" in F and shape != "struct_unit")
     noise = "docs" in F and "rename" in F
     if shape == "struct_unit":
-        return decl("struct", name, "unit", (), (), tparams=[], lifetimes=[], capture=capture, capture_text=ctext, replace=replace, docs=docs, mods=mods, inst=[], **style)
+        dd = decl("struct", name, "unit", (), (), tparams=[], lifetimes=[], capture=capture, capture_text=ctext, replace=replace, docs=docs, mods=mods, inst=[], **style)
+        dd["crate_path"] = "crate_path" in F
+        return dd
     if shape != "enum":
         dd = decl("struct", name, "named" if named else "unnamed", fs, (), tparams, lifetimes, capture, replace, docs, mods, inst, ctext, consts=consts, **style)
-        dd["doc_noise"] = noise
+        dd["doc_noise"] = noise; dd["crate_path"] = "crate_path" in F
         return dd
     unn = [dict(f, name=[], rename=[]) for f in fs]
     vs = [variant("A", docs=([" variant doc"] if "docs" in F else ())),
@@ -126,7 +128,7 @@ def from_plan(shape, feats, i, for_codec=True):
         next(v for v in vs if v["name"] == "B")["discr"] = [33]
     if "codec_index" in F and "discriminant" in F: vs.append(variant("Z", "unit", cindex=9, discr=77))
     dd = decl("enum", name, "named", (), vs, tparams, lifetimes, capture, replace, docs, mods, inst, ctext, consts=consts, **style)
-    dd["doc_noise"] = noise
+    dd["doc_noise"] = noise; dd["crate_path"] = "crate_path" in F
     return dd
 
 # ------------------------------------------------------------------------------------------------
@@ -173,6 +175,7 @@ def rand_decl(r, i, for_codec=True):
     d["doc_attr"] = r.random() < 0.2
     d["combined"] = r.random() < 0.3
     d["doc_noise"] = r.random() < 0.3
+    d["crate_path"] = r.random() < 0.12
     if r.random() < 0.12 and d["shape"] != "unit" and (d["kind"] == "struct" or d["variants"]):
         named = d["shape"] == "named"
         tgt = d["fields"] if d["kind"] == "struct" else None
@@ -300,6 +303,7 @@ def decl_src0(d, with_codec):
     if skipped: attrs.append("skip_type_params(" + ", ".join(skipped) + ")")
     if d["capture"] != "absent": attrs.append('capture_docs = "%s"' % d.get("capture_text", d["capture"]))
     for a, b in d["replace"]: attrs.append('replace_segment("%s", "%s")' % (a, b))
+    if d.get("crate_path"): attrs.insert(len(attrs) // 2, "crate = crate::reexp::si")      # metadata-neutral: where the emitted paths start
     if d.get("combined") and attrs:
         s += "#[scale_info(%s)]\n" % ", ".join(attrs)          # all items in one attribute
     else:
@@ -391,6 +395,7 @@ def needs_default_ok(d):
 
 HEADER = """#![allow(dead_code, unused_imports, unused_variables, non_camel_case_types, non_snake_case)]
 use vh::dv;
+pub mod reexp { pub use ::scale_info as si; }      // the library under another path: #[scale_info(crate = crate::reexp::si)]
 """
 RGB_DECL = "#[derive(scale_info::TypeInfo, Clone, Copy, Default)] pub struct Rgb(pub u32);\n"
 VALUE_HEADER = """
